@@ -756,7 +756,8 @@ func genScript(r *prng.R, c *call, msize, smsize int) {
 				break
 			}
 			if tries > 20 {
-				s.dir = p9p.Dir{}
+				// no Rstat fits this msize: let the session answer with an error instead
+				s.kind, s.text, s.dir = "rerror", "stat", p9p.Dir{}
 				break
 			}
 		}
@@ -802,11 +803,11 @@ func genCall(r *prng.R, msize, smsize int, fid *p9p.Fid) *call {
 	return c
 }
 
-var msizes = []int{64, 65, 100, 128, 256, 1000, 4096, 8192, 65535, 65536}
+var msizes = []int{24, 25, 40, 64, 65, 100, 128, 256, 1000, 4096, 8192, 65535, 65536}
 
 func genMsize(r *prng.R) int {
 	if r.Chance(1, 4) {
-		return r.Range(64, 65536)
+		return r.Range(24, 65536)
 	}
 	return msizes[r.Intn(len(msizes))]
 }
@@ -1298,9 +1299,10 @@ func childReply() {
 		var msg p9p.Message
 		var ms sx.S
 		// half of the time the reply type the method expects, with arbitrary field values
-		for tries := 0; tries < 200; tries++ {
+		wantRight := r.Bool()
+		for tries := 0; tries < 400; tries++ {
 			msg, ms = genReply(r)
-			if r.Bool() || strings.TrimPrefix(fmt.Sprintf("%T", msg), "p9p.MessageR") == strings.ToLower(c.method) {
+			if !wantRight || strings.TrimPrefix(fmt.Sprintf("%T", msg), "p9p.MessageR") == strings.ToLower(c.method) {
 				break
 			}
 		}
